@@ -332,10 +332,17 @@ pub enum Child {
 }
 
 pub fn run_child(args: &[String], timeout: std::time::Duration) -> Child {
-    use std::io::Read;
     let exe = std::env::current_exe().expect("current exe");
+    let mut a = vec!["child".to_string()];
+    a.extend(args.iter().cloned());
+    run_exe(&exe, &a, timeout)
+}
+
+/// Runs `exe args..` and returns the JSON after its last `RESULT ` line.
+pub fn run_exe(exe: &std::path::Path, args: &[String], timeout: std::time::Duration) -> Child {
+    use std::io::Read;
     let mut cmd = std::process::Command::new(exe);
-    cmd.arg("child").args(args);
+    cmd.args(args);
     cmd.stdout(std::process::Stdio::piped());
     cmd.stderr(std::process::Stdio::piped());
     let mut ch = match cmd.spawn() {
